@@ -1455,7 +1455,14 @@ class Node:
             self.auth_application_ids & cer_auth_apps)
         conn.acct_application_ids = list(
             self.acct_application_ids & cer_acct_apps)
-        conn.host_identity = message.origin_host.decode()
+        if not isinstance(message.origin_host, bytes):
+            self.logger.warning(
+                f"{conn} CEA names no Origin-Host, closing connection")
+            self.close_connection_socket(
+                conn, DISCONNECT_REASON_CER_REJECTED)
+            return
+        # a name that is not valid text is kept readable, like in `receive_cer`
+        conn.host_identity = message.origin_host.decode(errors="replace")
 
         self._assign_peer_connection(conn)
         self._flag_connection_as_ready(conn)
